@@ -30,7 +30,7 @@ var c06Msg = mkSpace("message", []fieldDim{
 	{"Issuer", []string{"", "b", "absent", "empty", "padded", "unregistered", "case", "slash", "a+evil", "evil+a"}},
 	{"ID", []string{"", "absent", "empty"}},
 	{"Version", []string{"", "absent", "empty"}},
-	{"Dest", []string{"", "absent", "scheme", "host", "port", "path", "case", "slash", "slo-endpoint"}},
+	{"Dest", []string{"", "absent", "scheme", "host", "port", "path", "case", "slash", "slo-endpoint", "pct-slash", "pct-letter", "upper-host", "default-port", "padded", "userinfo", "dot-segment"}},
 	{"NB", []string{"", "-1y", "-1s", "now", "+1us", "+1s", "+1y", "junk", "date", "tz", "tz+", "lowz", "nofrac-", "nofrac+", "9dig-", "9dig+", "zero", "epoch", "max", "zone+past", "zone-future", "zone-past", "zone+future", "y1601", "y1677-", "y1677+", "y2262-", "y2262+", "y2300", "y3000", "leap"}},
 	{"NOOA", []string{"", "-1y", "-1us", "now", "+1us", "+1y", "junk", "date", "tz", "tz+", "lowz", "nofrac-", "nofrac+", "9dig-", "9dig+", "zero", "epoch", "max", "zone+past", "zone-future", "zone-past", "zone+future", "y1601", "y1677-", "y1677+", "y2262-", "y2262+", "y2300", "y3000", "leap"}},
 	{"Encoding", []string{"", "deflate", "unknown", "case"}},
